@@ -68,8 +68,9 @@ fn main() {
     return;
   }
 
-  let mut res = ShardResult::new(&prop, "policy_seq", args.seed, args.shard);
-  res.rule = "one evaluation = one generated program of on_admit/on_access/on_remove/evict/clear calls (1..max-len calls, \
+  let res_arc = std::sync::Arc::new(std::sync::Mutex::new(ShardResult::new(&prop, "policy_seq", args.seed, args.shard)));
+  vh_cache::seq::wd::spawn(res_arc.clone(), args.out.clone(), args.start, std::time::Duration::from_secs(args.get_u64("hang-s", 20)));
+  res_arc.lock().unwrap().rule = "one evaluation = one generated program of on_admit/on_access/on_remove/evict/clear calls (1..max-len calls, \
     key space 1..32, policy capacity 1..10000, six cost profiles incl. all-unit, zero and 2^32..2^50 costs) run on a fresh \
     instance of one built-in policy with the bookkeeping model, followed by the final drain; non-trivial = at least one \
     evict/AdmitAndEvict nominated a victim AND some key was re-admitted or accessed between its admission and the end; \
@@ -88,7 +89,30 @@ fn main() {
     let policy = policies[(n % policies.len() as u64) as usize];
     n += 1;
     let case = gen_case(&mut rng, policy, &cfg);
+    vh_cache::seq::wd::describe(format!("policy {} case_index {} (re-run with the same --seed/--shard/--shards and --max-exec {})", policy, n - 1, n));
     let o = run(&case, true);
+    // everything that calls into the library for this case happens before the result is locked
+    let mut skipped = 0u64;
+    let mut gate = |rule: &str| -> bool {
+      let b = diag_budget.entry(format!("{}/{}", policy, rule)).or_insert(0);
+      *b += 1;
+      *b <= 300 || *b % 16 == 0
+    };
+    let canon = if o.findings.is_empty() { Vec::new() } else { canonical(&case, &o, &mut gate, &mut skipped) };
+    let mut prepared: Vec<(String, Canon, Vec<String>)> = Vec::new();
+    for c in canon {
+      let sig = format!("C14/{}/{}/{}", policy, c.rule, c.variant);
+      let already = res_arc.lock().unwrap().violations.iter().filter(|v| v.signature == sig).count();
+      if already >= 50 {
+        prepared.push((sig, c, Vec::new()));
+        continue;
+      }
+      let c = if already == 0 { shrink(&c) } else { c };
+      let t = run(&c.witness, c.drain).trace;
+      prepared.push((sig, c, t));
+    }
+    let mut guard = res_arc.lock().unwrap();
+    let res = &mut *guard;
     res.executions += 1;
     let s = &o.stats;
     let nontrivial = (s.evict_victims + s.admit_victims + s.drain_victims > 0) && (s.admit_readmit + s.access_tracked > 0);
@@ -124,32 +148,19 @@ fn main() {
     }
 
     // ---- findings
-    if o.findings.is_empty() {
-      continue;
-    }
-    let mut skipped = 0u64;
-    let mut gate = |rule: &str| -> bool {
-      let b = diag_budget.entry(format!("{}/{}", policy, rule)).or_insert(0);
-      *b += 1;
-      *b <= 300 || *b % 16 == 0
-    };
-    let canon = canonical(&case, &o, &mut gate, &mut skipped);
     res.count("findings_not_localized_after_cap", skipped);
-    for c in canon {
-      let sig = format!("C14/{}/{}/{}", policy, c.rule, c.variant);
+    for (sig, c, min_trace) in prepared {
       res.count(&format!("findings/{}", sig), 1);
       let already = res.violations.iter().filter(|v| v.signature == sig).count();
       if already >= 50 {
         res.count("violations_beyond_cap", 1);
         continue;
       }
-      let c = if already == 0 { shrink(&c) } else { c };
-      let min_out = run(&c.witness, c.drain);
       let witness = json!({
         "seed": args.seed, "shard": args.shard, "case_index": n - 1, "found_after_s": args.elapsed_s(),
         "minimal_program": c.witness.to_json(),
         "minimal_program_final_drain": c.drain,
-        "minimal_program_observed": min_out.trace,
+        "minimal_program_observed": min_trace,
         "program": case.to_json(),
         "finding": {"rule": c.rule, "variant": c.variant, "keys": c.keys, "detail": c.detail},
         "note": "tinylfu (random hash seeds) and random (thread rng) are not bit-for-bit replayable",
@@ -157,5 +168,6 @@ fn main() {
       res.violation(&sig, &format!("{}: {}", policy, c.detail), &args.replay_dir, &witness);
     }
   }
+  let res = res_arc.lock().unwrap();
   res.write(&args.out, args.elapsed_s());
 }
